@@ -568,6 +568,7 @@ func migrationScenario(e *env, name string, seed uint64, newState bool, mode str
 	}
 	e.res.HitN("diff:blocks-naming-an-unchanged-slot", noops)
 	e.res.HitN("diff:same-address-nonce+class-replace-blocks", base.ch.directed)
+	e.res.HitN("txs:blocks-with-an-l1-handler-that-is-not-last", base.ch.l1Mid)
 	type cfg struct {
 		retained, l1 uint64
 	}
